@@ -38,6 +38,11 @@ def canon(t):
             args = tuple(canon(a) for a in n[3])
             if nm == "saturating_as" and len(args) == 1:
                 return args[0]
+            if nm == "pow" and len(args) == 2 and args[1][0] == "const" and isinstance(args[1][1], int) and 1 <= args[1][1] <= 4 and ("core::num" in n[1] or "<impl " in n[1]):
+                r_ = args[0]
+                for _ in range(args[1][1] - 1):
+                    r_ = ("bin", "Mul", r_, args[0])
+                return r_                                        # x.pow(2) and x * x are the same polynomial
             if nm in ("into", "from", "try_into", "clone") and len(args) == 1 and ("convert" in n[1] or "clone" in n[1]):
                 return args[0]
             if nm in SHORT and ("core::" in n[1] or "<impl " in n[1] or "Ord" in n[1] or n[1].startswith("cmp::")):
